@@ -99,16 +99,31 @@ class Episode:
     def scale(self, r):
         return 0.375 * r
 
+    def form(self, x):
+        """Increments are label-indexed: the same table / row with its labels in another order (dt last, dv before theta, an extra
+        column) is the same input (seeded change C02_6: predict read its row by position)."""
+        if not self.perm or self.rng.rand() < 0.5:
+            return x
+        order = [list(x.columns if x.ndim == 2 else x.index)[i] for i in self.rng.permutation(7)]
+        if x.ndim == 2:
+            y = x[order].copy()
+            if self.rng.rand() < 0.3:
+                y.insert(0, "flag", 1.0)
+            return y
+        y = x[order].copy()
+        y.name = x.name
+        return y
+
     # ---- actions (return value of the call)
     def do(self, op):
         o = self.obj
         if op[0] == "I":
             k = op[1]
             n = len(o.trajectory) - 1      # increments consumed
-            return o.integrate(self.inc.iloc[n:n + k])
+            return o.integrate(self.form(self.inc.iloc[n:n + k]))
         if op[0] == "P":
             r = self.inc.iloc[op[1] - 1]
-            return o.predict(self.scale(r) if op[2] else r)
+            return o.predict(self.form(self.scale(r) if op[2] else r))
         if op[0] == "S":
             nrow = len(o.trajectory)
             p = self.new_pva(self.times[nrow - 1], op[1])
